@@ -25,25 +25,25 @@ Proof.
 Qed.
 
 
-Lemma yields_from_length r : forall ss j ys, length (yields_from r j ss ys) = length ys.
+Lemma yields_from_length cfg r : forall ss j ys, length (yields_from cfg r j ss ys) = length ys.
 Proof.
   induction ss as [|f ss IH]; intros j ys; cbn [yields_from]; [reflexivity|].
-  rewrite IH. destruct (is_accept (f r)); [apply bump_length|reflexivity].
+  rewrite IH. destruct (is_accept cfg (f r)); [apply bump_length|reflexivity].
 Qed.
 
-Lemma nth_yields_from r k : forall ss j0 ys, (j0 + length ss <= length ys)%nat ->
-  nth k (yields_from r j0 ss ys) 0 =
-  nth k ys 0 + (if (j0 <=? k)%nat && (k <? j0 + length ss)%nat && is_accept (nth (k - j0) ss dflt r) then 1 else 0).
+Lemma nth_yields_from cfg r k : forall ss j0 ys, (j0 + length ss <= length ys)%nat ->
+  nth k (yields_from cfg r j0 ss ys) 0 =
+  nth k ys 0 + (if (j0 <=? k)%nat && (k <? j0 + length ss)%nat && is_accept cfg (nth (k - j0) ss dflt r) then 1 else 0).
 Proof.
   induction ss as [|f ss IH]; intros j0 ys Hlen.
   - cbn [yields_from length]. rewrite Nat.add_0_r.
     destruct (j0 <=? k)%nat eqn:H1, (k <? j0)%nat eqn:H2; cbn [andb]; try lia.
     apply Nat.leb_le in H1. apply Nat.ltb_lt in H2. lia.
   - cbn [yields_from]. cbn [length] in Hlen. rewrite IH.
-    2:{ destruct (is_accept (f r)); [rewrite bump_length|]; lia. }
-    assert (Hnth : nth k (if is_accept (f r) then bump j0 ys else ys) 0 =
-                   nth k ys 0 + (if is_accept (f r) && Nat.eqb j0 k then 1 else 0)).
-    { destruct (is_accept (f r)); cbn [andb]; [|lia]. rewrite nth_bump.
+    2:{ destruct (is_accept cfg (f r)); [rewrite bump_length|]; lia. }
+    assert (Hnth : nth k (if is_accept cfg (f r) then bump j0 ys else ys) 0 =
+                   nth k ys 0 + (if is_accept cfg (f r) && Nat.eqb j0 k then 1 else 0)).
+    { destruct (is_accept cfg (f r)); cbn [andb]; [|lia]. rewrite nth_bump.
       assert (H : (j0 <? length ys)%nat = true) by (apply Nat.ltb_lt; lia). rewrite H, andb_true_r. reflexivity. }
     rewrite Hnth. cbn [length].
     destruct (Nat.eqb j0 k) eqn:Hjk.
@@ -68,21 +68,21 @@ Section Loader.
   Hypothesis repaired : c_legacy cfg = false.
 
   Definition accepted_by (j : nat) (pairs : list pair) : list pair :=
-    filter (fun r => is_accept (nth j strats dflt r)) pairs.
+    filter (fun r => is_accept cfg (nth j strats dflt r)) pairs.
 
   Lemma yields_pairs_spec k : (k < length strats)%nat -> forall pairs ys, (length strats <= length ys)%nat ->
-    length (yields_pairs strats pairs ys) = length ys /\
-    nth k (yields_pairs strats pairs ys) 0 = nth k ys 0 + Z.of_nat (length (accepted_by k pairs)).
+    length (yields_pairs strats cfg pairs ys) = length ys /\
+    nth k (yields_pairs strats cfg pairs ys) 0 = nth k ys 0 + Z.of_nat (length (accepted_by k pairs)).
   Proof.
     intros Hk. unfold yields_pairs, accepted_by.
     induction pairs as [|r rest IH]; intros ys Hlen; cbn [fold_left filter length].
     - split; [reflexivity|lia].
-    - destruct (IH (yields_from r 0 strats ys)) as [IH1 IH2]; [rewrite yields_from_length; lia|].
+    - destruct (IH (yields_from cfg r 0 strats ys)) as [IH1 IH2]; [rewrite yields_from_length; lia|].
       rewrite IH1, IH2, yields_from_length. split; [reflexivity|].
       rewrite nth_yields_from by (cbn [Nat.add]; lia).
       cbn [Nat.leb Nat.add andb]. rewrite Nat.sub_0_r.
       apply Nat.ltb_lt in Hk. rewrite Hk. cbn [andb].
-      destruct (is_accept (nth k strats dflt r)); cbn [length]; lia.
+      destruct (is_accept cfg (nth k strats dflt r)); cbn [length]; lia.
   Qed.
 
   (* COUNTERS: strategyYields[j] = number of consumed pairs strategy j accepted *)
@@ -109,7 +109,7 @@ Section Loader.
     cbn [pairs_from]. rewrite filter_app, app_length, IH by (intros r' Hr'; apply Hall; now right).
     unfold accepted_by. cbn [filter].
     assert (Hstep : length (filter (written_by j) (steps_from rejhdr cfg p0 r 0 strats)) =
-                    if is_accept (nth j strats dflt r) then 1%nat else 0%nat).
+                    if is_accept cfg (nth j strats dflt r) then 1%nat else 0%nat).
     { rewrite (filter_ext_in (written_by j) (at_b true p0 j 0)).
       2:{ intros e He. apply steps_from_labels in He. destruct He as [He _].
           unfold written_by, at_b, lab_eqb. rewrite He, Nat.eqb_refl. reflexivity. }
@@ -118,8 +118,8 @@ Section Loader.
       apply Nat.ltb_lt in Hj. rewrite Hj.
       destruct (Hall r (or_introl eq_refl)) as [Hok Hcr].
       rewrite (step_count rejhdr cfg true p0 r j _ 0%nat Hok Hcr Hw).
-      destruct (is_accept (nth j strats dflt r)); reflexivity. }
-    rewrite Hstep. unfold accepted_by. destruct (is_accept (nth j strats dflt r)); cbn [length]; lia.
+      destruct (is_accept cfg (nth j strats dflt r)); reflexivity. }
+    rewrite Hstep. unfold accepted_by. destruct (is_accept cfg (nth j strats dflt r)); cbn [length]; lia.
   Qed.
 
   Lemma counters_written pairs j :
@@ -211,19 +211,19 @@ Section Loader.
   Proof.
     unfold step_ok2, step_ok, step_events, width, target_width. intros [Hok Hcell] H1 H2.
     destruct (f r) as [recs|reason|kind].
-    - destruct t.
+    - destruct Hok as [Hok Hall]. rewrite (ok_prefix_all _ Hall). destruct t.
       + unfold write_target. destruct (c_sc cfg) eqn:Hsc.
         * rewrite !in_file_split.
-          rewrite !(filter_mate_combine (mkArec [] []) (fun k x => mkEv true (a_cell x) k p j (a_text x))
+          rewrite !(filter_mate_combine (mkArec true [] []) (fun k x => mkEv true (a_cell x) k p j (a_text x))
                       (fun e => Bool.eqb (e_target e) true && str_eqb (e_cell e) cell)) by reflexivity.
           cbn [Nat.leb Nat.add andb].
           assert (A1 : (m1 <? Nat.min 2 (length recs))%nat = true) by (apply Nat.ltb_lt; lia).
           assert (A2 : (m2 <? Nat.min 2 (length recs))%nat = true) by (apply Nat.ltb_lt; lia).
           rewrite A1, A2. cbn [andb e_target e_cell Bool.eqb]. rewrite !Nat.sub_0_r.
-          rewrite (Hcell eq_refl (nth m1 recs (mkArec [] [])) (nth m2 recs (mkArec [] []))) by (apply nth_In; lia).
-          destruct (str_eqb (a_cell (nth m2 recs (mkArec [] []))) cell); reflexivity.
+          rewrite (Hcell eq_refl (nth m1 recs (mkArec true [] [])) (nth m2 recs (mkArec true [] []))) by (apply nth_In; lia).
+          destruct (str_eqb (a_cell (nth m2 recs (mkArec true [] []))) cell); reflexivity.
         * rewrite !in_file_split.
-          rewrite !(filter_mate_combine (mkArec [] []) (fun k x => mkEv true [] k p j (a_text x))
+          rewrite !(filter_mate_combine (mkArec true [] []) (fun k x => mkEv true [] k p j (a_text x))
                       (fun e => Bool.eqb (e_target e) true && str_eqb (e_cell e) cell)) by reflexivity.
           cbn [Nat.leb Nat.add andb].
           assert (A1 : (m1 <? Nat.min (c_nh cfg) (length recs))%nat = true) by (apply Nat.ltb_lt; lia).
